@@ -100,6 +100,43 @@ class EEMSWrite(SameArrayShapeMixin, Command):
     }
     output = params.BooleanParameter()
 
+    @staticmethod
+    def free_fill_value(values, fill_value):
+        """ Returns `fill_value` if it is not one of `values`, else a value of the same type that is not """
+
+        dtype = values.dtype
+        fill_value = dtype.type(fill_value)
+        if dtype.kind not in "iuf":
+            return fill_value
+
+        in_use = numpy.isnan(values).any() if fill_value != fill_value else (values == fill_value).any()
+        if not in_use:
+            return fill_value
+
+        values = numpy.unique(values)
+        if dtype.kind == "f":
+            limits = numpy.finfo(dtype)
+            values = values[numpy.isfinite(values)]
+            with numpy.errstate(over="ignore"):
+                above = numpy.nextafter(values, dtype.type(numpy.inf))
+                below = numpy.nextafter(values, dtype.type(-numpy.inf))
+        else:
+            limits = numpy.iinfo(dtype)
+            above = values[values < limits.max] + dtype.type(1)
+            below = values[values > limits.min] - dtype.type(1)
+
+        preferred = [limits.max, limits.min]
+        default = numpy.ma.default_fill_value(values)
+        if dtype.kind == "f" or limits.min <= default <= limits.max:
+            preferred.insert(0, default)
+
+        candidates = numpy.concatenate((numpy.array(preferred, dtype=dtype), above, below))
+        candidates = candidates[numpy.isfinite(candidates)] if dtype.kind == "f" else candidates
+        free = candidates[~numpy.isin(candidates, values)]
+
+        # (every value of the type is in use: there is nothing left to mark missing cells with)
+        return free[0] if free.size else fill_value
+
     def execute(self, **kwargs):
         commands = kwargs["OutFieldNames"]
         arrays = [c.result for c in commands]
@@ -165,15 +202,7 @@ class EEMSWrite(SameArrayShapeMixin, Command):
                 data = numpy.ma.MaskedArray(command.result.data, mask)
 
                 # The fill value marks the missing cells in the file, so it must not be one of the values
-                values = data.compressed()
-                fill_value = values.dtype.type(command.result.fill_value)
-                if fill_value != fill_value and (values != values).any():
-                    fill_value = values.dtype.type(numpy.ma.default_fill_value(values))  # NaN is one of the values
-                while (values == fill_value).any():
-                    if numpy.issubdtype(values.dtype, numpy.integer):
-                        fill_value = fill_value + values.dtype.type(1)
-                    else:
-                        fill_value = numpy.nextafter(fill_value, values.dtype.type(numpy.inf))
+                fill_value = self.free_fill_value(data.compressed(), command.result.fill_value)
 
                 variable = dataset.createVariable(
                     command.result_name,
